@@ -42,6 +42,9 @@ type WorkerSummary struct {
 	DirtyRuns    int            `json:"dirty_runs"`
 	StoppedEarly string         `json:"stopped_early,omitempty"`
 	Race         bool           `json:"race_build"`
+	// Complete is false in the checkpoints a worker writes as it goes and
+	// true in the summary written when it ends normally
+	Complete bool `json:"complete"`
 }
 
 func envInt(name string, def int64) int64 {
@@ -212,10 +215,25 @@ func workerBatch(t *testing.T, sc *Scenario) {
 	sum := &WorkerSummary{Prop: sc.Prop, Worker: worker, Seed: seed, Start: start, Fired: map[string]int{}, Configured: map[string]int{}, Probes: map[string]int{}, Knobs: map[string]int{}, FailCount: map[string]int{}, Race: simrt.RaceBuild}
 	traceHashes := map[uint64]struct{}{}
 	caseHashes := map[uint64]struct{}{}
+	checkpoint := func(complete bool) {
+		sum.Complete = complete
+		sum.WallS = time.Since(t0).Seconds()
+		writeJSON(filepath.Join(out, fmt.Sprintf("worker-%d.json", worker)), sum)
+		writeHashes(filepath.Join(out, fmt.Sprintf("worker-%d.trace", worker)), traceHashes)
+		writeHashes(filepath.Join(out, fmt.Sprintf("worker-%d.case", worker)), caseHashes)
+	}
+	lastCheckpoint := time.Now()
 	for i := uint64(0); i < count; i++ {
 		if time.Since(t0) > budget {
 			sum.StoppedEarly = "time budget"
 			break
+		}
+		// what was done so far survives a fatal crash of this process (the
+		// driver attributes the crash to the run announced last and starts
+		// a new worker after it)
+		if out != "" && time.Since(lastCheckpoint) > 3*time.Second {
+			checkpoint(false)
+			lastCheckpoint = time.Now()
 		}
 		run := start + i*stride
 		watchdogBeat.Store(time.Now().UnixNano())
@@ -285,10 +303,7 @@ func workerBatch(t *testing.T, sc *Scenario) {
 			break
 		}
 	}
-	sum.WallS = time.Since(t0).Seconds()
-	writeJSON(filepath.Join(out, fmt.Sprintf("worker-%d.json", worker)), sum)
-	writeHashes(filepath.Join(out, fmt.Sprintf("worker-%d.trace", worker)), traceHashes)
-	writeHashes(filepath.Join(out, fmt.Sprintf("worker-%d.case", worker)), caseHashes)
+	checkpoint(true)
 	fmt.Printf("DONE %d\n", sum.Runs)
 }
 
